@@ -6,7 +6,9 @@ From V Require Import Common.Base DWT.DwtModel DWT.DwtProofs DWT.DwtProofs2D DWT
 (* 1-D: the streaming inverse (Inverse53_1DWithParity, OpenJPEG cas0/cas1 form) undoes the
    predict/update forward transform (Forward53_1DWithParity) for EVERY signal length (0, 1, 2,
    3, ... ; the width<=1 / width==1 doubling / width==2 special cases included) and both
-   parities, over unbounded integers. *)
+   parities, over unbounded integers.  (On the one input where both Go functions panic — the
+   empty signal with even=false, `dwt1d_panics` — the model returns []; the property's domain
+   is width >= 1.) *)
 Theorem C20_dwt53_inverse_1d : forall (even : bool) (l : list Z), inv53 even (fwd53 even l) = l.
 Proof. exact dwt53_inverse_1d. Qed.
 Print Assumptions C20_dwt53_inverse_1d.
